@@ -34,6 +34,7 @@ is_822_local (const char *start, const char *end)
     int ch;
     int qpair = 0;
     int quote = 0;
+    int qend = 0; /* previous character closed a quoted-string */
 
 
     if (start == end)
@@ -43,6 +44,10 @@ is_822_local (const char *start, const char *end)
         if (ch > 127)
             return inverse(EEAV_LPART_NOT_ASCII);
         if (!quote) {
+            /* a quoted-string is a whole word: only '.' may follow it */
+            if (qend && ch != '.')
+                return inverse(EEAV_LPART_MISPLACED_QUOTE);
+            qend = 0;
             /* SPACE and CTLs outside of quotes & quoted-pairs are forbidden.
              * See SPACE check below.
              */
@@ -79,7 +84,7 @@ is_822_local (const char *start, const char *end)
         else {
             /* qtext = <any CHAR excepting <">, "\" & CR, and including linear-white-space> */
             switch (ch) {
-            case '"':  { quote = 0; break; }
+            case '"':  { quote = 0; qend = 1; break; }
             case '\\': { qpair = 1; break; }
             /* excepting CR, and including linear-white-space> */
             case '\r': {
